@@ -15,6 +15,7 @@
 (*  3. Paths: NamespacePath = filepath.Join(prefix, "namespace", name), then LocalClient's         *)
 (*     safeJoinPath and FullNamespacePath (+ ".json"), on sequences of path segments.              *)
 (*     P: a path that is not rejected lies inside the storage root.                                *)
+(*     (I-level of the repaired code, commit 894f0d4.)                                             *)
 (* The state machine is a one-step case enumeration (pick a case, evaluate it): TLC's job here is  *)
 (* to decide the three properties over the enumerated classes and to emit the cases with the       *)
 (* specification's expected outcome for replay on the real functions.                             *)
@@ -130,11 +131,14 @@ SafeJoin(p) ==
 
 (* FullNamespacePath = filepath.Join(storagePath, rel) + ".json".  Location relative to the storage    *)
 (* root: up = how many levels above the root the file's directory is, dir = directories below that,    *)
-(* base = file name without the suffix ("ROOT" = the root directory's own name).                        *)
+(* base = file name without the suffix.  A relative path that is empty (the path resolves to the       *)
+(* storage root itself, e.g. name ".." with an empty coordinator root) is refused: appending the        *)
+(* suffix to the root would name the file <root>.json next to it (fix 894f0d4; before it the code       *)
+(* returned exactly that location and TLC reported the escape).                                         *)
 FullNamespacePath(prefix, name) ==
     LET r == SafeJoin(NamespacePath(prefix, name)) IN
     IF ~r.ok THEN [ok |-> FALSE, why |-> r.why, up |-> 0, dir |-> <<>>, base |-> ""]
-    ELSE IF r.rel = <<>> THEN [ok |-> TRUE, why |-> "", up |-> 1, dir |-> <<>>, base |-> "ROOT"]     \* storagePath + ".json"
+    ELSE IF r.rel = <<>> THEN [ok |-> FALSE, why |-> "root", up |-> 0, dir |-> <<>>, base |-> ""]
     ELSE [ok |-> TRUE, why |-> "", up |-> 0, dir |-> SubSeq(r.rel, 1, Len(r.rel) - 1), base |-> r.rel[Len(r.rel)]]
 
 (* P-level: inside the storage root. *)
@@ -143,9 +147,6 @@ Inside(loc) == loc.up = 0 /\ \A i \in 1..Len(loc.dir) : loc.dir[i] # ".."
 Names == UNION {[1..k -> Segs] : k \in 1..MaxSegs}
 Confined == \A pre \in Prefixes, n \in Names :
                LET loc == FullNamespacePath(pre, n) IN loc.ok => Inside(loc)
-(* the same with the fix proposed in out/proposed_fixes/C33-1.diff: an empty relative path is rejected *)
-ConfinedWithFix == \A pre \in Prefixes, n \in Names :
-               LET loc == FullNamespacePath(pre, n) IN (loc.ok /\ loc.base # "ROOT") => Inside(loc)
 
 -----------------------------------------------------------------------------------
 VARIABLE step
@@ -156,5 +157,4 @@ Spec == Init /\ [][Next]_step
 PaddingOK   == step = 1 => (PadRoundTrip /\ UnpadTotal)
 RoundTripOK == step = 1 => (RoundTripHolds /\ SeqRoundTrip)
 PathsOK     == step = 1 => Confined
-PathsFixOK  == step = 1 => ConfinedWithFix
 ===================================================================================
